@@ -1192,13 +1192,22 @@ static int handle_message(
     cli_mutex_unlock(&output_mutex);
   }
 
-  if (is_matching)
-  {
-    ((CALLBACK_ARGS*) data)->current_count++;
-    total_count++;
-  }
+  bool limit_reached;
 
-  if (limit != 0 && total_count >= limit)
+  if (is_matching)
+    ((CALLBACK_ARGS*) data)->current_count++;
+
+  // total_count is shared by all the scanning threads.
+  cli_mutex_lock(&output_mutex);
+
+  if (is_matching)
+    total_count++;
+
+  limit_reached = (limit != 0 && total_count >= limit);
+
+  cli_mutex_unlock(&output_mutex);
+
+  if (limit_reached)
     return CALLBACK_ABORT;
 
   return CALLBACK_CONTINUE;
